@@ -38,9 +38,9 @@ impl Out {
 }
 
 pub fn reset_event(w: &mut World, run: &str, init: &str, kind: &str, c11: bool) -> Value {
-    let obs = if w.alloc.is_some() { w.obs(true) } else { json!({}) };
+    let obs = if w.has_alloc() { w.obs(true) } else { json!({}) };
     json!({"ev":"reset","run":run,"kind":kind,"frames":w.frames,"init":init,"cls":w.cls_name,
-           "k":w.k,"th":TH,"ho":HO,"c11":c11 as u8,
+           "k":w.k,"th":TH,"ho":HO,"c11":c11 as u8,"zoff":w.shift,
            "ierr": w.init_err.clone().unwrap_or_default(), "obs": obs})
 }
 
@@ -81,8 +81,15 @@ impl<'a> Hist<'a> {
             dead: false,
         }
     }
+    /// continue with an already constructed (wrapped) allocator
+    pub fn adopt(out: &'a mut Out, w: World, seed: u64) -> Self {
+        Hist { w, held: vec![], rng: Rng(seed), out, twin: None, twin_age: 0, ncalls: 0, dead: false }
+    }
+    fn wrapped(&self) -> bool {
+        self.w.zone.is_some() || self.w.nvm.is_some()
+    }
     pub fn alive(&self) -> bool {
-        self.w.alloc.is_some() && !self.dead
+        self.w.has_alloc() && !self.dead
     }
 
     fn rand_class(&mut self) -> u8 {
@@ -201,12 +208,12 @@ impl<'a> Hist<'a> {
         if !self.alive() {
             return json!({"res":"dead"});
         }
-        let res = exec(self.w.a(), op);
+        let res = self.w.exec(op);
         let obs = self.w.obs(false);
         let mut ev = merge(op.to_json(), res.clone());
         ev = merge(ev, json!({"ev":"sc","obs":obs}));
         if let Some(tw) = self.twin.as_mut() {
-            let r2 = exec(tw.a(), op);
+            let r2 = tw.exec(op);
             let o2 = tw.obs(false);
             let mut t = r2.clone();
             t = merge(t, json!({"obs": o2}));
@@ -286,10 +293,16 @@ impl<'a> Hist<'a> {
             if !self.alive() {
                 return;
             }
-            if twins {
+            if twins && !self.wrapped() {
                 self.maybe_twin();
             }
-            if self.rng.chance(1) {
+            if self.wrapped() && self.rng.chance(6) {
+                // frames below the zone's offset
+                let op = Op::ZBelow(self.rng.below(2) as u8, self.rng.below(self.w.shift.min(3 * TF)), self.rng.below(3));
+                self.step(&op);
+                continue;
+            }
+            if !self.wrapped() && self.rng.chance(1) {
                 let init = if self.rng.chance(50) { "recover" } else { "none" };
                 self.reinit(init);
                 if !self.alive() {
@@ -326,7 +339,7 @@ impl<'a> Hist<'a> {
         let st = 1usize << order;
         let last;
         loop {
-            let r = exec(self.w.a(), &Op::Get(order, class, slot, None));
+            let r = self.w.exec(&Op::Get(order, class, slot, None));
             if r["res"] == "ok" {
                 let f = r["frame"].as_u64().unwrap() as usize;
                 rclasses.insert(r["rclass"].as_u64().unwrap());
@@ -363,7 +376,7 @@ impl<'a> Hist<'a> {
         let mut res = vec![];
         let mut panic = String::new();
         for &(f, o) in blocks {
-            let r = exec(self.w.a(), &Op::Put(f, o, class, slot));
+            let r = self.w.exec(&Op::Put(f, o, class, slot));
             if r["res"] == "panic" {
                 panic = r["msg"].as_str().unwrap_or("").to_string();
                 self.dead = true;
